@@ -522,6 +522,18 @@ func stdIntrinsics(e *Engine) map[string]intrinsic {
 		if f.IsConst() && allConcreteTerms(args[1:]) {
 			return strconv.FormatFloat(f.FVal(), byte(args[1].(*Term).c), int(args[2].(*Term).SVal()), int(args[3].(*Term).SVal()))
 		}
+		if allConcreteTerms(args[1:]) && args[2].(*Term).SVal() == -1 && args[3].(*Term).SVal() == 32 && (byte(args[1].(*Term).c) == 'g' || byte(args[1].(*Term).c) == 'f') {
+			// bitSize 32: the shortest decimal that identifies float32(x). Read back at
+			// 64-bit precision it is some value y with float32(y) == float32(x) (y is
+			// left otherwise unconstrained: an over-approximation, replayed natively).
+			p.eng.noteStub("strconv.FormatFloat(x, fmt, -1, 32) of a symbolic float (value y with float32(y)==float32(x))")
+			y := p.symScalar("formatfloat32", "float64", fpSort(64))
+			same := Or(Eq(FToF(y, 32), FToF(f, 32)), And(fpUn(OFIsNaN, y), fpUn(OFIsNaN, f)))
+			if !p.decideX(same, false) {
+				panic(pathEnd{status: "infeasible"})
+			}
+			return &SymStr{b: make([]*Term, 8), taint: "FormatFloat at 32-bit precision of a symbolic float64", flt: y, fltF: byte(args[1].(*Term).c) == 'f'}
+		}
 		if allConcreteTerms(args[1:]) && args[2].(*Term).SVal() == -1 && args[3].(*Term).SVal() == 64 {
 			switch byte(args[1].(*Term).c) {
 			case 'f':
